@@ -46,9 +46,45 @@ def apply_cuts(raw, cuts):
     return out
 
 
+def boundary_pairs():
+    """The peer's last bytes end exactly on a read boundary of the provider (recv size = max_pdu_length, or 65536 when
+    the maximum is 0 = no limit) and its reset is right behind them: the end of the connection must not overtake the
+    data.  Pairs (that delivery, one PDU per segment and then the reset)."""
+    from pynetdicom2 import userdataitems
+    out = []
+    idle = [('idle',)] * 4
+
+    def rq_of_size(total):
+        rq = pd.mk_rq()
+        ident = userdataitems.UserIdentityNegotiationSubItem('', '', 5, 0)
+        rq.variable_items[-1].user_data.append(ident)
+        ident._primary_field = b'j' * (total - len(rq.encode()))
+        assert len(rq.encode()) == total
+        return rq.encode()
+    small = pd.mk_rq().encode()
+    for label, raw, max_len in (('request-of-65536-bytes-no-limit', rq_of_size(65536), 0),
+                                ('request-of-exactly-the-recv-size', small, len(small)),
+                                ('request-of-131072-bytes-in-two-reads-no-limit', None, 0)):
+        if raw is None:
+            # two PDUs, 65536 bytes each: an A-ASSOCIATE-RQ and (not expected in Sta3: answered by an abort) a second one
+            raw2 = rq_of_size(65536)
+            a = dict(label=[label, 'whole-then-reset'], acceptor=True, max_len=max_len,
+                     ops=[('idle',), ('segreset', raw2 + raw2)] + idle)
+            b = dict(label=[label, 'per-pdu-then-reset'], acceptor=True, max_len=max_len,
+                     ops=[('idle',), ('seg', raw2), ('seg', raw2), ('idle',), ('reset',)] + idle)
+        else:
+            a = dict(label=[label, 'whole-then-reset'], acceptor=True, max_len=max_len,
+                     ops=[('idle',), ('segreset', raw)] + idle)
+            b = dict(label=[label, 'per-pdu-then-reset'], acceptor=True, max_len=max_len,
+                     ops=[('idle',), ('seg', raw), ('reset',)] + idle)
+        out.append((a, b))
+    return out
+
+
 def main(tier, seed):
     dec = common.Decision('C03', tier, seed)
-    common.static_gate(dec, ['Properties/C03.v'], ['Proofs/FramingProofs.v', 'Proofs/BaseProofs.v', 'Proofs/FsmProofs.v'])
+    common.static_gate(dec, ['Properties/C03.v'], ['Proofs/FramingProofs.v', 'Proofs/BaseProofs.v', 'Proofs/FsmProofs.v',
+                                                   'Proofs/FsmWProofs.v', 'Proofs/ProviderWProofs.v'])
     rng = random.Random(seed)
     cases = []
     refs = {}
@@ -94,12 +130,27 @@ def main(tier, seed):
                                   max_len=m, ops=pd.to_script(conv, whole, False), ref=rname))
     runner, results, failing, broken, _refs = pd.run_cases(
         'C03', dec, cases, [('corr', 'prov_corr'), ('spec', 'c03_spec')], size=30, refs=refs)
+    bpairs = boundary_pairs()
+    _rn, bres, bfail, bbroken = pd.run_pairs_w('C03', dec, bpairs, [('corr', 'prov_corr_w2'), ('spec', 'c03_spec_w')],
+                                               runner=runner, prefix='Boundary')
+    broken += bbroken
+    for i in sorted(set(bfail['spec']) | set(bfail['corr'])):
+        a, b = bpairs[i]
+        r = dict(kind='segmentation-changes-result' if i in bfail['spec'] else 'model-differs', label=a['label'],
+                 acceptor=True, max_len=a['max_len'], ops=pd.short_ops(a['ops'])[:1] + ['segreset:<%d bytes>' % len(a['ops'][1][1])],
+                 result=pd.summary(bres[i][0]), reference_result=pd.summary(bres[i][1]))
+        if i in bfail['spec']:
+            dec.report(r)
+        else:
+            dec.report(dict(r, theorem='correspondence prov_corr_w (Corr/CorrProviderW.v)'), no_input=True)
     cov = dec.coverage
-    cov['evaluations'] = len(cases)
+    cov['evaluations'] = len(cases) + 2 * len(bpairs)
     cov['distinct_nontrivial'] = len(set(tuple(pd.short_ops(c['ops'])) for c in cases if sum(1 for o in c['ops'] if o[0] == 'seg') >= 2))
     cov['rule'] = ('corpus of %d conversations (acceptor and requestor) x {one PDU per segment, all at once, every single '
                    'cut offset (sampled for long blocks in quick), pairs of cuts, 1-byte dribble, seeded k-cuts} of every '
-                   'peer block x first segment waiting or not; whole blocks as one segment of exactly / one below / one above the recv size; non-trivial = at least two segments' % len(corpus))
+                   'peer block x first segment waiting or not; whole blocks as one segment of exactly / one below / one above the recv size; '
+                   'requests of exactly 65536 bytes (no limit = reads of 65536) and of exactly the recv size with the peer\'s reset right '
+                   'behind them vs. per-PDU delivery; non-trivial = at least two segments' % len(corpus))
     cov['distribution'] = dict(by_kind=dict((k, sum(1 for c in cases if c['label'][1 if len(c['label']) == 3 else 2].startswith(k)))
                                             for k in ('one-pdu', 'all-at', 'cut@', 'cuts@', 'dribble', 'kcuts', 'segment=')),
                                segments_max=max(sum(1 for o in c['ops'] if o[0] == 'seg') for c in cases))
